@@ -2,6 +2,7 @@
    the non-vacuity example of props/C01.v instantiates [archive_roundtrip_gcm]: AES-256 as the
    block cipher of the header's key wrap, InstGcm's AES-GCM tables for the data chunks, a
    concrete call list and configuration.  Definitions only. *)
+From MLA Require Import Limit.
 From MLA Require Import Base Stream CompLayer Blocks Writer InstGcm Format Gcm Ecies EciesGcm FormatBridge FormatV1 Archive.
 From MLA.Concrete Require Aes Ghash X25519 Sha256.
 From MLAGen Require Src.
